@@ -324,6 +324,32 @@ func TestEnumerateOneFilter(t *testing.T) {
 	rec.ExhaustiveSub("one prop-filter: outer test(4) x inner test(4) x is-not-defined(2) x text-match lists of length 0-2 over match type(6) x negate(2) x text{'',a,ab} x property {absent,a,ab,ba}")
 }
 
+// Engine E1b: values and match texts that look like escapes of the vCard, XML and URL notations (after C07-s16).  The
+// property value is compared as it is: the decoder has already undone the notation, nothing is undone twice.
+var metaTexts = []string{`\`, `\\`, `,`, `\,`, `;`, `\;`, "\n", `\n`, `\N`, `n`, `a\,b`, `a,b`, `a\\b`, `a\b`, `a;b`, `a\;b`, "a\nb", `a\nb`, `"`, `:`, `^n`, `^'`, `a^nb`, `%41`, `A`, `&amp;`, `&`, `&lt;`, `<`}
+
+func TestMetaCharacters(t *testing.T) {
+	if vev.ReplayFile() != "" {
+		t.Skip()
+	}
+	idx := 0
+	for _, val := range metaTexts {
+		for _, tx := range metaTexts {
+			for _, ty := range types[:5] {
+				for _, neg := range []bool{false, true} {
+					idx++
+					if !vev.MyShare(idx) {
+						continue
+					}
+					c := Case{Mode: "match", Q: Q{PFs: []PF{{Name: "EMAIL", TMs: []TM{{Text: tx, Neg: neg, Type: ty}}}}}, Cards: []Card{card1(val)}}
+					run(t, nil, c, "E1b/meta")
+				}
+			}
+		}
+	}
+	rec.ExhaustiveSub(fmt.Sprintf("one text-match: %d escape-looking values x the same %d texts x match type(5) x negate(2)", len(metaTexts), len(metaTexts)))
+}
+
 // Engine E2: two property filters, restricted text matches, all outer tests.
 func TestEnumerateTwoFilters(t *testing.T) {
 	if vev.ReplayFile() != "" {
@@ -484,7 +510,7 @@ func TestRandom(t *testing.T) {
 		t.Skip()
 	}
 	names := []string{"EMAIL", "TEL", "FN", "NOTE", "X-A"}
-	values := rapid.OneOf(rapid.SampledFrom([]string{"", "a", "ab", "ba", "abc", "A", "a b", "é", "ab\nc"}), rapid.StringMatching(`[abAB ]{0,5}`))
+	values := rapid.OneOf(rapid.SampledFrom([]string{"", "a", "ab", "ba", "abc", "A", "a b", "é", "ab\nc"}), rapid.StringMatching(`[abAB ]{0,5}`), rapid.SampledFrom(metaTexts), rapid.StringMatching(`[ab\\,;n]{0,4}`))
 	// invalid enumeration values are near-misses of the valid ones (case, blanks,
 	// separators), since "guessing" is most plausible for those
 	nearMiss := func(valid []string) *rapid.Generator[string] {
